@@ -6,20 +6,38 @@
      SC  `print(1)`         clean
      SS  `)`                syntax error            -> type 1 at its line (parser recovers on the next line)
      SD k `g<k> = 1`        defines global g<k>
-     SU k `print(g<k>)`     uses global g<k>        -> type 2 at its line (third pass) unless some included file defines it
+     SU k `print(g<k>)`     uses global g<k>        -> third pass: nothing when this file defines g<k> on an earlier line;
+                                                       type 3 ("crcular reference or load order error, ...") when it defines
+                                                       it only later; else nothing when some included file defines it;
+                                                       else type 2 ("var not define: g<k>")
      SR f `require("<f>")`  requires the module of file f -> type 6 at its line (first pass) unless the index resolves it
-   The server is started with exactly the checks 1, 2, 4, 6 enabled. *)
+     SF n `function gf(a) end` (n = 1) / `function gf(a, b) end` (n = 2)    defines the global function gf with n parameters
+     SG   `gf(1, 2, 3)`     calls gf                -> the name gf is looked up like g<k> above (type 3 / type 2, tag gf_tag),
+                                                       then type 10 "gf call func param num(3) > func define param num(<n>)"
+                                                       where n belongs to the first definition of this file when that lies
+                                                       on an earlier line, else to the definition the third pass's global
+                                                       table holds: every included file offers its first definition, the
+                                                       smallest line wins, ties go to the first file in path order (the
+                                                       documents outside the workspace, directory o/, sort before w/)
+   The server is started with exactly the checks 1, 2, 3, 4, 6, 10 enabled.
+
+   The third component of an `err` (the tag) stands for everything the client is shown beyond type and start line: the
+   columns and the message text. The toy analysis gives every distinct (columns, text) of a type its own tag:
+     type 1, 4: 0      type 6: the required file      type 2, 3: k for g<k>, gf_tag for gf      type 10: n
+   ocaml/c08_run.ml renders the tag back to "<start col>,<end line>,<end col>:<message>" and prints a hash of that string;
+   the implementation leg prints the same hash of what the real server published, so the correspondence check compares
+   columns and message texts on every case. *)
 From Coq Require Import List NArith Bool.
 From LH Require Import Model.Diag Model.Events Spec.FreshStart.
 Import ListNotations.
 Local Open Scope N_scope.
 
-Inductive stmt := SL | SC | SS | SD (k : N) | SU (k : N) | SR (f : file).
+Inductive stmt := SL | SC | SS | SD (k : N) | SU (k : N) | SR (f : file) | SF (n : N) | SG.
 
 Definition stmt_eqb (a b : stmt) : bool :=
   match a, b with
-  | SL, SL | SC, SC | SS, SS => true
-  | SD x, SD y | SU x, SU y | SR x, SR y => x =? y
+  | SL, SL | SC, SC | SS, SS | SG, SG => true
+  | SD x, SD y | SU x, SU y | SR x, SR y | SF x, SF y => x =? y
   | _, _ => false
   end.
 Fixpoint stmts_eqb (a b : list stmt) : bool :=
@@ -44,13 +62,57 @@ Definition toy_first (t : list stmt) : list item :=
 Definition toy_defs (ps : list (file * list stmt * list (option file))) : list N :=
   flat_map (fun x => flat_map (fun s => match s with SD k => [k] | _ => [] end) (snd (fst x))) ps.
 
+Definition gf_tag : N := 100.
+
+(* the lines on which a text defines g<k> / the first definition of gf in a text: (line, number of parameters) *)
+Definition def_lines (k : N) (t : list stmt) : list N :=
+  flat_map (fun p => match snd p with SD j => if j =? k then [fst p] else [] | _ => [] end) (numbered 0 t).
+Definition gf_first (t : list stmt) : option (N * N) :=
+  match flat_map (fun p => match snd p with SF n => [(fst p, n)] | _ => [] end) (numbered 0 t) with
+  | [] => None
+  | d :: _ => Some d
+  end.
+
+(* generateAllGlobalMaps visits the files in path order: o/p.lua o/q.lua w/a.lua .. w/d.lua *)
+Definition path_rank (f : file) : N := if f <? 4 then f + 2 else f - 4.
+
+(* JudgeShouldInsertGlobalInfo + FindThirdGlobalGInfo: a later file's definition replaces the earlier ones only when
+   its line is strictly smaller; the last one inserted is the one found *)
+Definition gf_global (ps : list (file * list stmt * list (option file))) : option (N * N) :=
+  fold_left (fun best x => match gf_first (snd (fst x)) with
+                           | None => best
+                           | Some (ln, n) =>
+                             let key := ln * 8 + path_rank (fst (fst x)) in
+                             match best with
+                             | Some (key0, _) => if key <? key0 then Some (key, n) else best
+                             | None => Some (key, n)
+                             end
+                           end) ps None.
+
+(* the look-up of a global name used at line i of a text that defines it on the lines `own`; `elsewhere` = the third
+   pass's global table has it *)
+Definition name_errs (i : N) (own : list N) (elsewhere : bool) (tag : N) : list err :=
+  if existsb (fun j => j <? i) own then []
+  else if negb (is_nil own) then [(3, i, tag)]
+  else if elsewhere then [] else [(2, i, tag)].
+
 Definition toy_cross (ps : list (file * list stmt * list (option file))) (f : file) : list err :=
   let defs := toy_defs ps in
+  let gg := gf_global ps in
   match find (fun x => fst (fst x) =? f) ps with
-  | Some x => flat_map (fun p => match snd p with
-                                 | SU k => if existsb (N.eqb k) defs then [] else [(2, fst p, k)]
-                                 | _ => []
-                                 end) (numbered 0 (snd (fst x)))
+  | Some x =>
+    let t := snd (fst x) in
+    let own_gf := match gf_first t with Some (ln, _) => [ln] | None => [] end in
+    flat_map (fun p => match snd p with
+                       | SU k => name_errs (fst p) (def_lines k t) (existsb (N.eqb k) defs) k
+                       | SG => name_errs (fst p) own_gf (match gg with Some _ => true | None => false end) gf_tag ++
+                               match gf_first t, gg with
+                               | Some (ln, n), Some (_, m) => [(10, fst p, if ln <? fst p then n else m)]
+                               | None, Some (_, m) => [(10, fst p, m)]
+                               | _, None => []
+                               end
+                       | _ => []
+                       end) (numbered 0 t)
   | None => []
   end.
 
